@@ -31,12 +31,19 @@ type ConcCase struct {
 	Readers  int      `json:"readers"`
 	Observer bool     `json:"observer"` // an observer that calls getters from inside the notification
 	Def      Defaults `json:"def"`
+	// Removed[i] (i >= 1): before version i is written the file is deleted and a reload runs while the readers
+	// run (the configuration falls back to the built-in defaults); version i then re-creates the file
+	Removed []bool `json:"removed,omitempty"`
 }
 
+// built-in defaults the readers watch as well: they are in force from construction on, whatever happens to the file
+var builtinWatched = map[string]string{"enabled": "true", "net_udp_port": "6600"}
+
 type concStats struct {
-	Reads   []int64 `json:"reads"` // completed getter rounds per reader
-	Reloads int     `json:"reloads"`
-	Torn    string  `json:"torn,omitempty"`
+	Reads    []int64 `json:"reads"` // completed getter rounds per reader
+	Reloads  int     `json:"reloads"`
+	Removals int     `json:"removals"`
+	Torn     string  `json:"torn,omitempty"`
 }
 
 type concObserver struct{ keys []string }
@@ -67,6 +74,30 @@ func concChild(c ConcCase) int {
 			}
 			allowed[k][strings.TrimSpace(v)] = true
 		}
+	}
+	// the built-in defaults come into force the first time the file is found missing and are merged over, never
+	// removed, from then on: once that reload has returned, these keys can no longer read as ""
+	var defaultsInForce atomic.Bool
+	if len(c.Removed) > 0 {
+		// what a configuration without a file reports: any key of the case may take its built-in default after a
+		// removal (these values only widen the allowed sets; they are not what is judged here)
+		nofile := filepath.Join(filepath.Dir(os.Getenv(specEnv)), "nofile-home")
+		if err := os.Mkdir(nofile, 0o755); err != nil {
+			fmt.Println("harness:", err)
+			return 4
+		}
+		dc := newConf(nofile, nil)
+		dc.ApplyDefault()
+		for k := range allowed {
+			allowed[k][dc.GetValue(k)] = true
+		}
+		dc.Destroy()
+	}
+	for k, dv := range builtinWatched {
+		if allowed[k] == nil {
+			allowed[k] = map[string]bool{"": true}
+		}
+		allowed[k][dv] = true
 	}
 	var keys []string
 	for k := range allowed {
@@ -99,7 +130,16 @@ func concChild(c ConcCase) int {
 			defer wg.Done()
 			for n := 0; !stop.Load(); n++ {
 				for i, k := range keys {
+					inForce := defaultsInForce.Load()
 					v := conf.GetValue(k)
+					if _, builtin := builtinWatched[k]; builtin && inForce && v == "" {
+						tornMu.Lock()
+						if torn == "" {
+							torn = fmt.Sprintf("reader %d: GetValue(%q) = \"\" although the built-in defaults have been in force since an earlier reload found the file missing (neither a file value nor the default)", r, k)
+						}
+						tornMu.Unlock()
+						stop.Store(true)
+					}
 					if !allowed[k][v] {
 						tornMu.Lock()
 						if torn == "" {
@@ -146,7 +186,20 @@ func concChild(c ConcCase) int {
 	}
 	waitRounds(1)
 	reloads := 0
+	removals := 0
 	for i := 1; i < len(c.Versions) && !stop.Load(); i++ {
+		if i < len(c.Removed) && c.Removed[i] {
+			if err := os.Remove(path); err != nil {
+				fmt.Println("harness:", err)
+				stop.Store(true)
+				wg.Wait()
+				return 4
+			}
+			fc.ReloadNowForVerif()
+			defaultsInForce.Store(true)
+			removals++
+			waitRounds(2)
+		}
 		clock += 1_000_000_007 // a later second: this check does not depend on sub-second mtimes
 		if err := writeAt(path, c.Versions[i].render(), clock); err != nil {
 			fmt.Println("harness:", err)
@@ -160,7 +213,7 @@ func concChild(c ConcCase) int {
 	}
 	stop.Store(true)
 	wg.Wait()
-	st := concStats{Reloads: reloads, Torn: torn}
+	st := concStats{Reloads: reloads, Removals: removals, Torn: torn}
 	for r := range counters {
 		st.Reads = append(st.Reads, counters[r].Load())
 	}
@@ -195,6 +248,12 @@ func drawConc(t *rapid.T) ConcCase {
 		c.Versions = append(c.Versions, f)
 	}
 	c.Def = genDefaults().Draw(t, "def")
+	if rapid.Bool().Draw(t, "withremovals") {
+		c.Removed = make([]bool, n)
+		for i := 1; i < n; i++ {
+			c.Removed[i] = rapid.IntRange(0, 2).Draw(t, "removed") == 0
+		}
+	}
 	return c
 }
 
@@ -263,6 +322,9 @@ func runConc(c ConcCase) *pbt.Result {
 	if c.Observer {
 		classes = append(classes, "observer-calls-getters")
 	}
+	if st.Removals > 0 {
+		classes = append(classes, "file-removed-and-recreated-while-readers-run")
+	}
 	if raceEnabled {
 		classes = append(classes, "race-detector:on")
 	} else {
@@ -282,7 +344,7 @@ var (
 
 var concSpec = pbt.Register(pbt.Spec[ConcCase]{
 	Prop: "C18", Name: "concurrent-getters",
-	Rule:  "3-8 versions of a file over 2-5 keys; a child process (this binary, built with -race) creates the configuration on version 0, starts 4 readers spinning over GetValue + one of GetValueDef/GetBoolean/GetInt/GetLong/GetFloat/GetIntSet/GetStringArray/GetKeys per key, then writes and reloads every later version while the readers run (optionally with an observer that calls getters inside the notification); violation = race-detector report, runtime fatal error, hang, a GetValue result that no version of the key ever had, or the last version not visible at quiescence; non-trivial = at least 2 reloads and every reader completed at least 2 rounds per reload",
+	Rule:  "3-8 versions of a file over 2-5 keys; a child process (this binary, built with -race) creates the configuration on version 0, starts 4 readers spinning over GetValue + one of GetValueDef/GetBoolean/GetInt/GetLong/GetFloat/GetIntSet/GetStringArray/GetKeys per key, then writes and reloads every later version while the readers run, in half of the cases deleting the file and reloading (fallback to the built-in defaults) before some of the versions; the readers also watch the built-in defaults enabled and net_udp_port, which read as the default or a value a version gave them and, once a reload has found the file missing, never as empty again (optionally with an observer that calls getters inside the notification); violation = race-detector report, runtime fatal error, hang, a GetValue result that no version of the key ever had, or the last version not visible at quiescence; non-trivial = at least 2 reloads and every reader completed at least 2 rounds per reload",
 	Quick: 96, Thorough: 3200,
 	Draw: drawConc, Run: runConc,
 })
